@@ -65,7 +65,7 @@ fn c09_q_parents_n6() {
 #[kani::proof]
 #[kani::unwind(10)]
 #[kani::stub(alloc::fmt::format, crate::vklib::empty_format)]
-fn c09_t_parents_n8() {
+fn c09_q_parents_n8() {
     check_parents::<8>();
 }
 
@@ -118,6 +118,27 @@ fn c09_q_visible_n4() {
 #[kani::unwind(8)]
 #[kani::stub(alloc::fmt::format, crate::vklib::empty_format)]
 #[kani::stub(std::hash::RandomState::new, crate::vklib::fixed_random_state)]
-fn c09_t_visible_n6() {
+fn c09_q_visible_n6() {
     check_visible::<6>();
+}
+
+#[kani::proof]
+#[kani::unwind(10)]
+#[kani::stub(alloc::fmt::format, crate::vklib::empty_format)]
+#[kani::stub(std::hash::RandomState::new, crate::vklib::fixed_random_state)]
+fn c09_t_visible_n8() {
+    check_visible::<8>();
+}
+#[kani::proof]
+#[kani::unwind(14)]
+#[kani::stub(alloc::fmt::format, crate::vklib::empty_format)]
+fn c09_t_parents_n12() {
+    check_parents::<12>();
+}
+#[kani::proof]
+#[kani::unwind(12)]
+#[kani::stub(alloc::fmt::format, crate::vklib::empty_format)]
+#[kani::stub(std::hash::RandomState::new, crate::vklib::fixed_random_state)]
+fn c09_t_visible_n10() {
+    check_visible::<10>();
 }
